@@ -190,12 +190,14 @@ void * __wrap_pool_allocate_object(pool * p) {
 void pool_state(long * slabs, long * next) { *slabs = -1; *next = -1; }
 void pool_forget(void) {}
 #endif
+#ifndef VARIANT_TSAN      /* no interposed counters in the threaded build: they would be shared mutable state of the harness's own */
 unsigned long __real_ran_num_next(void);
 unsigned long __wrap_ran_num_next(void) { g_wrap_rng_count++; return __real_ran_num_next(); }
 int __real_rand(void);
 int __wrap_rand(void) { g_wrap_rand_count++; return __real_rand(); }
 void __real_srand(unsigned);
 void __wrap_srand(unsigned s) { g_wrap_srand_count++; __real_srand(s); }
+#endif
 
 /* ---- script ---- */
 static int hexv(int c) { return isdigit(c) ? c - '0' : (tolower(c) - 'a' + 10); }
